@@ -153,7 +153,18 @@ theorem null_is_not_a_bool (f : FieldD) (hk : f.kind = kBool) : validText f tNul
   have h1 : (kBool == kString) = false := by decide
   have h2 : (kBool == kInt32) = false := by decide
   have h3 : (kBool == kInt64) = false := by decide
-  simp [validText, hk, h1, h2, h3, trimJson, tNull, tTrue, tFalse, isJsonSpace]
+  have h4 : (kBool == kUint32) = false := by decide
+  simp [validText, hk, h1, h2, h3, h4, trimJson, tNull, tTrue, tFalse, isJsonSpace]
+
+/-- An unsigned 32-bit parameter above 2^32-1, or with a sign, is rejected - never reduced modulo 2^32. -/
+theorem uint32_out_of_range_rejected (f : FieldD) (hk : f.kind = kUint32) :
+    validText f (s "4294967296") = none ∧ validText f (s "4294967303") = none ∧ validText f (s "-0") = none ∧
+    validText f (s "4294967295") = some (s "4294967295") := by
+  have h1 : (kUint32 == kString) = false := by decide
+  have h2 : (kUint32 == kInt32) = false := by decide
+  have h3 : (kUint32 == kInt64) = false := by decide
+  simp only [validText, hk, h1, h2, h3, Bool.false_eq_true, if_false, BEq.rfl, if_true]
+  decide +kernel
 
 /-- A string parameter is taken verbatim. -/
 theorem string_verbatim (f : FieldD) (hk : f.kind = kString) (text : Bytes) : validText f text = some text := by
